@@ -258,11 +258,23 @@ def _box(enc_assertion_el):
     return "empty"
 
 
+def _parse(xml):
+    """an element tree, or None for a message that is not well-formed (an observation, not a harness failure)"""
+    try:
+        return ET.fromstring(xml)
+    except ET.ParseError:
+        return None
+
+
 def read_wire(xml):
     """-> (shape dict, outer assertion element as the holder of every key sees it or None, advice element or None)"""
-    root = ET.fromstring(xml)
-    shape = {"resp_signed": _has_sig(root), "body": "none", "body_key": None, "outer_signed": None,
+    root = _parse(xml)
+    shape = {"resp_signed": False, "body": "none", "body_key": None, "outer_signed": None,
              "advice": "none", "advice_key": None, "advice_signed": None}
+    if root is None:
+        shape["body"] = "other:not-well-formed"
+        return shape, None, None
+    shape["resp_signed"] = _has_sig(root)
     plain = root.findall(_q(SAML, "Assertion"))
     encs = root.findall(_q(SAML, "EncryptedAssertion"))
     outer = None
@@ -280,8 +292,9 @@ def read_wire(xml):
         elif shape["body"] == "sealed":
             k, opened = _open_first(xml)
             shape["body_key"] = k
-            if k is not None:
-                outer = ET.fromstring(opened).find(_q(SAML, "EncryptedAssertion")).find(_q(SAML, "Assertion"))
+            t = _parse(opened) if k is not None else None
+            if t is not None:
+                outer = t.find(_q(SAML, "EncryptedAssertion")).find(_q(SAML, "Assertion"))
     adv_el = None
     if outer is not None:
         shape["outer_signed"] = _has_sig(outer)
@@ -299,8 +312,9 @@ def read_wire(xml):
                 elif shape["advice"] == "sealed":
                     k, opened2 = _open_first(opened)
                     shape["advice_key"] = k
-                    if k is not None:
-                        for a in ET.fromstring(opened2).iter(_q(SAML, "Advice")):
+                    t2 = _parse(opened2) if k is not None else None
+                    if t2 is not None:
+                        for a in t2.iter(_q(SAML, "Advice")):
                             e = a.find(_q(SAML, "EncryptedAssertion"))
                             adv_el = e.find(_q(SAML, "Assertion")) if e is not None else None
             elif a_plain or a_enc:
@@ -327,7 +341,11 @@ def leaks(xml, name_marker, outer_markers, advice_markers):
         b = m.encode("utf-8")
         return any(b in h for h in hay)
 
-    root = ET.fromstring(xml)
+    root = _parse(xml)
+    if root is None:  # not well-formed: no element positions; a clear Assertion start tag counts as a clear assertion
+        return {"assertion": re.search(r"<(\w+:)?Assertion[\s>]", xml) is not None, "advice_assertion": False,
+                "name_id": seen(name_marker), "attrs_outer": any(seen(m) for m in outer_markers),
+                "attrs_advice": any(seen(m) for m in advice_markers)}
     n_resp = len(root.findall(_q(SAML, "Assertion")))
     n_wrapped = sum(len(e.findall(_q(SAML, "Assertion"))) for e in root.findall(_q(SAML, "EncryptedAssertion")))
     n_adv = 0
@@ -362,7 +380,10 @@ SOAPENV = "http://schemas.xmlsoap.org/soap/envelope/"
 
 def _from_ecp(envelope):
     """the samlp:Response inside the SOAP body create_ecp_authn_request_response returns"""
-    body = ET.fromstring(envelope).find(_q(SOAPENV, "Body"))
+    env = _parse(envelope)
+    if env is None:
+        return envelope  # not well-formed: observed as such by read_wire
+    body = env.find(_q(SOAPENV, "Body"))
     resp = body.find(_q(SAMLP, "Response")) if body is not None else None
     if resp is None:
         raise RuntimeError("no Response in the ECP envelope")
@@ -380,17 +401,19 @@ def run_idp(case, idp=None):
     for k in ("cert_assertion", "cert_advice"):
         if case.get(k) is not None:
             kw["encrypt_" + k] = _cert_text(case[k])
-    nid = saml.NameID(format=saml.NAMEID_FORMAT_PERSISTENT, text=case["name_id"])
+    quals = {"name_qualifier": S.IDP_ID, "sp_name_qualifier": case["sp_entity_id"]} if case.get("nameid_qualifiers") else {}
+    nid = saml.NameID(format=saml.NAMEID_FORMAT_PERSISTENT, text=case["name_id"], **quals)
+    authn = AUTHN if case.get("authn", "full") == "full" else {"class_ref": AUTHN["class_ref"]}
     entry = case.get("entry", "direct")
     ident, acs, eid = copy.deepcopy(case["identity"]), case["acs"], case["sp_entity_id"]
     with _Recorder(idp) as rec, _ExtraAdvice(idp, case.get("advice_identity")), S.clock(case["now"]):
         try:
             if entry == "direct":
-                r = idp.create_authn_response(ident, RID, acs, eid, name_id=nid, authn=AUTHN, **kw)
+                r = idp.create_authn_response(ident, RID, acs, eid, name_id=nid, authn=authn, **kw)
             elif entry == "request_response":
-                r = idp.create_authn_request_response(ident, RID, acs, eid, name_id=nid, authn=AUTHN, **kw)
+                r = idp.create_authn_request_response(ident, RID, acs, eid, name_id=nid, authn=authn, **kw)
             else:
-                r = idp.create_ecp_authn_request_response(acs, ident, RID, acs, eid, name_id=nid, authn=AUTHN, **kw)
+                r = idp.create_ecp_authn_request_response(acs, ident, RID, acs, eid, name_id=nid, authn=authn, **kw)
         except Exception as e:  # the library refuses to issue (EncryptError, AttributeError on a half-built message ...)
             return None, rec.ops, type(e).__name__
     if isinstance(r, bytes):
@@ -440,8 +463,14 @@ def run_sp(case, xml, sp=None):
             "not_on_or_after": si["not_on_or_after"] if si else None, "cached": cached, "assertion_id": aid}
 
 
+def _text(v):
+    """the text form a typed attribute value has on the wire and at the recipient"""
+    return ("true" if v else "false") if isinstance(v, bool) else str(v)
+
+
 def _vals(d):
-    return [v for vs in (d or {}).values() for v in vs]
+    """markers to search the wire for: str and int values (a bool's text is no marker)"""
+    return [_text(v) for vs in (d or {}).values() for v in vs if not isinstance(v, bool)]
 
 
 def expected_split(case):
@@ -455,7 +484,7 @@ def _ava3(ava, want):
     got = {k: list(v) for k, v in ava.items() if k in want}
     if not got:
         return "none"
-    return "full" if got == {k: list(v) for k, v in want.items()} else "other"
+    return "full" if got == {k: [_text(x) for x in v] for k, v in want.items()} else "other"
 
 
 def run_impl(case):
@@ -603,7 +632,8 @@ ASSUMPTIONS = [
     "histories: the model is stateless (each step is answered from that step's call and store alone); that the "
     "implementation carries nothing from one call to the next is checked by the history stream only",
     "the recipient is known to the IdP's metadata; one assertion per Response; at most one advice assertion",
-    "identities are non-empty dictionaries of str lists; marker values are alphanumeric (no XML escaping involved)",
+    "identities are dictionaries of str / int / bool lists, possibly empty; str and int values serve as markers "
+    "(alphanumeric, no XML escaping involved); typed values are compared in their text form",
     "Entity._response is reached through Server.create_authn_response (to_sign = the assertion iff it is to be "
     "signed and not to be encrypted)",
 ]
@@ -637,6 +667,28 @@ def base_case(rng, flags, md="md", cert_assertion=None, cert_advice=None, sp=Non
          "tamper": tamper, "tamper_pos": rng.randrange(4096)}
     if sp:
         c["sp"].update(sp)
+    return c
+
+
+SHAPES = ["empty", "one", "several", "typed"]
+
+
+def shaped(rng, c, shape=None, quals=None, authn=None):
+    """give a case another CONTENT SHAPE (namespace footprint of the assertion): no attribute at all, one,
+    several multi-valued, typed values (xs:integer / xs:boolean); NameID with / without qualifiers;
+    authentication context with / without AuthenticatingAuthority"""
+    shape = shape or rng.choice(SHAPES)
+    if shape == "empty":
+        c["identity"] = {}
+    elif shape == "one":
+        c["identity"] = {rng.choice(ATTRS): [_mk(rng)]}
+    elif shape == "several":
+        c["identity"] = {n: [_mk(rng) for _ in range(rng.randint(1, 3))] for n in rng.sample(ATTRS, rng.randint(2, 4))}
+    else:
+        a, b, t = rng.sample(ATTRS, 3)
+        c["identity"] = {a: [rng.randrange(10 ** 8, 10 ** 9)], b: [_mk(rng), rng.randrange(10 ** 8, 10 ** 9)], t: [rng.random() < 0.5]}
+    c["nameid_qualifiers"] = (rng.random() < 0.5) if quals is None else quals
+    c["authn"] = rng.choice(["full", "class_only"]) if authn is None else authn
     return c
 
 
@@ -708,7 +760,7 @@ def gen_cases(rng, tier):
         yield c
     for c in history_cases(rng, 80 if tier == "quick" else 800):
         yield c
-    n = 1000 if tier == "quick" else 20000
+    n = 800 if tier == "quick" else 20000
     for _ in range(n):
         yield random_case(rng)
 
@@ -816,6 +868,8 @@ def random_case(rng):
     if rng.random() < 0.05:
         sp["solicited"] = False
     c["sp"].update(sp)
+    if rng.random() < 0.3:
+        shaped(rng, c)
     if not fl["pefim"] and rng.random() < 0.35:
         c["advice_identity"] = {n: [_mk(rng)] for n in rng.sample(ADV_ATTRS, rng.randint(1, 2))}
         c["tag"] = "random/extra-advice"
@@ -898,6 +952,25 @@ def history_cases(rng, n_random):
             _step(rng, inst, "A", f, "md", None, None, "data"),
             _step(rng, inst, "A", f, "md", "attacker", "attacker", None, ["sp_enc2"]),
             _step(rng, inst, "A", f, "md")])
+    # consecutive calls of one IdP process differ in the assertion's content shape (namespace footprint): identity
+    # empty / one / several / typed, assertion signed or not, advice or not, NameID qualifiers, authn context -
+    # self-contained rendering on and off; the recipient must recover each one exactly
+    inst = _instance(rng, "A", {"A": ["sp_enc1"]})
+    for sc, pf in itertools.product((True, False), repeat=2):
+        for order in (["empty", "several", "typed", "empty", "one"], ["typed", "empty", "several", "one", "empty"]):
+            steps = []
+            for k, shp in enumerate(order):
+                sa = k % 2 == 1
+                f = _flags(False, sa or not sc, True, False, sc, pf and k % 3 != 2)
+                steps.append(shaped(rng, _step(rng, inst, "A", f, "md"), shp, k % 2 == 0, "full" if k % 3 else "class_only"))
+            yield _history("content-shape", steps)
+        steps = []
+        for k, shp in enumerate(["one", "empty", "several", "typed"]):
+            st = shaped(rng, _step(rng, inst, "A", _flags(k % 2 == 0, k % 2 == 1, True, True, sc, False), "md"), shp)
+            if k % 2 == 0:
+                st["advice_identity"] = {} if k == 2 else {"eduPersonAffiliation": [_mk(rng)]}
+            steps.append(st)
+        yield _history("content-shape-advice", steps)
     for _ in range(n_random):
         names = rng.choice(["A", "AB", "ABC"])
         keys = {n: rng.choice([["sp_enc1"], ["sp_enc2", "sp_enc1"], ["sp_enc2"], []]) for n in names}
@@ -915,9 +988,10 @@ def history_cases(rng, n_random):
             f = _flags(rng.random() < 0.5, rng.random() < 0.5, rng.random() < 0.7, rng.random() < 0.2, rng.random() < 0.8,
                        rng.random() < 0.35)
             cert = rng.choice([None] * 6 + ["sp_enc1", "sp_enc2", "pem:sp_enc2", ""])
-            steps.append(_step(rng, inst, n, f, cur[n], cert, cert if rng.random() < 0.7 else None,
-                               rng.choice([None] * 5 + ["key", "data"]),
-                               rng.sample(["sp_enc1", "sp_enc2"], rng.randint(1, 2)) if rng.random() < 0.25 else None))
+            st = _step(rng, inst, n, f, cur[n], cert, cert if rng.random() < 0.7 else None,
+                       rng.choice([None] * 5 + ["key", "data"]),
+                       rng.sample(["sp_enc1", "sp_enc2"], rng.randint(1, 2)) if rng.random() < 0.25 else None)
+            steps.append(shaped(rng, st) if rng.random() < 0.6 else st)
         yield _history("random", steps)
 
 
@@ -953,7 +1027,9 @@ def finding_key(case, impl, lean):
     earlyReturnClass / objectFormClass) AND the implementation fails the way it used to (early return: the only
     operation is the assertion signature and the advice is readable; object form: the call raises)"""
     if "history" in case:
-        return None  # a history that fails is a failure of its own (state carried between calls)
+        # a class of its own, never a known one: state carried between calls; reported beside any single-call
+        # failure, and its replay reproduces in a fresh process because it holds the whole sequence
+        return "C16/history"
     cl = lean.get("classes") or {}
     why = set(lean.get("why") or [])
     if cl.get("early") and impl.get("idp") == "ok" and impl.get("ops") == ["signAssertion"] \
